@@ -55,7 +55,7 @@ pub fn run(ctx: &mut Ctx) -> bool {
             statics::run_c06_generated(ctx);
         }
         "C14" => {
-            ctx.rule = "Cases are placements (legal or not, up to 9 queens / 10 rooks, bishops, knights / 8 pawns a side) with a side to move. Metamorphic oracle: eval(P) == eval(colour-mirror(P)); eval(P with the other side to move) == -eval(P); eval unchanged when castling rights, en passant target, last_move, pawn_promotion, key and ordering value are overwritten; |eval| < 50000. Families: the complete single-piece basis E5 (12 pieces x 64 squares x 25 game-phase weights) and random sparse / dense / queen-heavy placements. Non-trivial = placement not equal to its own colour-mirror; distinct by (placement, side to move).".into();
+            ctx.rule = "Cases are placements (legal or not, up to 9 queens / 10 rooks, bishops, knights / 8 pawns a side) with a side to move. Metamorphic oracle: eval(P) == eval(colour-mirror(P)); eval(P with the other side to move) == -eval(P); eval unchanged when castling rights, en passant target, last_move, pawn_promotion, key and ordering value are overwritten; |eval| < T/2 where T is the smallest score the engine's own info printer reports as `score mate` (observed through the output hook: 99985 on the pinned tree). Families: the complete single-piece basis E5 (12 pieces x 64 squares x 25 game-phase weights) and random sparse / dense / queen-heavy placements. Non-trivial = placement not equal to its own colour-mirror; distinct by (placement, side to move).".into();
             ctx.assumptions = vec!["the mirror transformation is the oracle's (validated as an involution preserving move counts)".into()];
             statics::run_c14(ctx);
         }
